@@ -66,6 +66,13 @@ static void task_fn(struct aws_task *t, void *arg, enum aws_task_status status) 
         reentrant_done = 1;
         aws_thread_scheduler_cancel_task(ts, &task[1]);
     }
+#ifdef VSX_FREE
+    /* free-running twin only: scenarios poll tl[] under hm, so the log has to be written under it as well - otherwise the
+     * harness itself races, and everything the scheduler thread did to the task before the callback counts as unordered
+     * with what the polling thread does next (under the controlled scheduler the hand-offs order them; an extra lock there
+     * would only add schedule points) */
+    pthread_mutex_lock(&hm);
+#endif
     struct tlog *l = &tl[i];
     if (status == AWS_TASK_STATUS_RUN_READY && !run_collect_seq[i]) run_collect_seq[i] = vs_last_lock_seq(vs_current_tid());
     if (l->n < 4) {
@@ -76,6 +83,9 @@ static void task_fn(struct aws_task *t, void *arg, enum aws_task_status status) 
     }
     l->n++;
     if (after_release) invoked_after_release++;
+#ifdef VSX_FREE
+    pthread_mutex_unlock(&hm);
+#endif
     if (i == 0 && status == AWS_TASK_STATUS_RUN_READY) {
         pthread_mutex_lock(&hm);
         ran_flag = 1;
